@@ -68,6 +68,7 @@ type Query struct {
 	Goal    *Term // to be proved; nil => satisfiability (cover) query over Hyps
 	IsCover bool
 	Values  []*Term // terms whose model value is requested (get-value) instead of a full model
+	SeedOff int     // added to the solver seed (retries of an undecided ledger clause)
 }
 
 func (q *Query) SMT(withModel bool) string {
@@ -221,14 +222,18 @@ func maxInt(a, b int) int {
 	return b
 }
 
-func runOne(ctx context.Context, sp solverSpec, file string, timeoutS int) (string, string, float64) {
+func runOne(ctx context.Context, sp solverSpec, file string, timeoutS int, seedOff ...int) (string, string, float64) {
 	select {
 	case procSem <- struct{}{}:
 	case <-ctx.Done():
 		return "timeout", "cancelled before start", 0
 	}
 	defer func() { <-procSem }()
-	args := sp.args(file, timeoutS, verifSeed)
+	seed := verifSeed
+	for _, o := range seedOff {
+		seed += o
+	}
+	args := sp.args(file, timeoutS, seed)
 	start := time.Now()
 	cctx, cancel := context.WithTimeout(ctx, time.Duration(timeoutS+2)*time.Second)
 	defer cancel()
@@ -278,7 +283,7 @@ func Solve(q *Query, timeoutS int, withModel bool) SolverResult {
 	if timeoutS < quick {
 		quick = timeoutS
 	}
-	v, o, el := runOne(context.Background(), solvers[0], file, quick)
+	v, o, el := runOne(context.Background(), solvers[0], file, quick, q.SeedOff)
 	all[solvers[0].name] = v
 	if v == "unsat" || v == "sat" {
 		record(solvers[0].name, el)
@@ -298,7 +303,7 @@ func Solve(q *Query, timeoutS int, withModel bool) SolverResult {
 	for _, sp := range solvers {
 		sp := sp
 		go func() {
-			v, o, el := runOne(ctx, sp, file, timeoutS)
+			v, o, el := runOne(ctx, sp, file, timeoutS, q.SeedOff)
 			ch <- res{sp.name, v, o, el}
 		}()
 	}
